@@ -9,12 +9,13 @@ from . import core, trace_lifecycle
 
 # (universe id, traces, steps) per tier; the 4-dimension universe is expensive for TLC and mostly left to the thorough tier
 PLAN = {"quick": [(0, 16, 24), (1, 16, 24), (2, 3, 20)],
-        "thorough": [(0, 300, 34), (1, 300, 34), (2, 60, 30)]}
+        "thorough": [(0, 300, 34), (1, 300, 34), (2, 60, 30), (-1, 2, 12)]}
 
 
 def _one(args):
     uid, ntraces, nsteps, seed, workers = args
-    batch = trace_lifecycle.record_batch(uid, ntraces, nsteps, seed)
+    # uid -1: the library's own example system (flodym.example_objects) as a fixed instance; its compute() is the library's
+    batch = trace_lifecycle.record_example_batch(ntraces, nsteps, seed) if uid < 0 else trace_lifecycle.record_batch(uid, ntraces, nsteps, seed)
     acc, rej, res = trace_lifecycle.validate_batch(batch, workers=workers)
     bad = []
     for tid, (pos, clause) in rej.items():
@@ -63,8 +64,9 @@ def run_lifecycle_models(out, prop, tier):
         "forms after every step")
 
 
-def run_lifecycle_traces(out, prop, tier):
-    run_lifecycle_models(out, prop, tier)
+def run_lifecycle_traces(out, prop, tier, direction_a=True):
+    if direction_a:
+        run_lifecycle_models(out, prop, tier)
     plan = PLAN[tier]
     jobs = [(uid, n, steps, out.seed, 3 if tier == "quick" else 5) for uid, n, steps in plan]
     with cf.ProcessPoolExecutor(max_workers=len(jobs), mp_context=core.mp.get_context("spawn")) as ex:
@@ -99,7 +101,9 @@ def run_lifecycle_traces(out, prop, tier):
         "whole-array assignments into flows and stock inflows and stock computations (inflow-driven DSM with a fixed lifetime under the start / "
         "middle / end / 2-point rules, flow-driven stocks); history: parameter entries edited, lifetimes replaced (set_prms in three forms), "
         "compute(), flow entries overwritten (also negative / NaN), check_mass_balance with default / zero / explicit tolerance, check_flows with "
-        "exception lists, numpy / pandas / pickle / CSV exports (CSV repeatedly into one directory); all values are dyadic rationals on grids whose "
-        "interval lengths are powers of two and are logged as exact fractions; TLC keeps the specification's state and accepts an event iff every "
+        "exception lists, numpy / pandas / pickle / CSV exports (CSV repeatedly into one directory; pandas / CSV tables also read back with "
+        "from_df), Sankey diagrams with random slices, exclusions and split flows; all values are dyadic rationals on grids whose "
+        "interval lengths are powers of two and are logged as exact fractions; thorough tier: also the library's own example system "
+        "(flodym.example_objects.ExampleMFA, 31 years x 3 materials, its own compute()) as a fixed instance with dyadic parameter values; TLC keeps the specification's state and accepts an event iff every "
         "array of the real system equals the contract's and the report / export is what the contract says for the current values")
     return total
